@@ -13,7 +13,7 @@ RULE = ("configurations: every (list, n_cpu, mode) of the grid is run on the rea
         "order are enumerated exhaustively; max_returns: per query count/true/closest checks; non-trivial = expected set non-empty")
 ASSUMPTIONS = ["real OS timing of pool workers is not controlled; Pool.map is order-preserving by contract and every chunk schedule is enumerated in the virtual pool",
                "virtual pool models Pool(n) with map/starmap/imap/imap_unordered and the fork start method"]
-REQUIRED_CLASSES = {"all": ["n_cpu>len", "n_cpu==len", "chunksize-does-not-divide", "virtual-schedule", "compression>1", "max_returns-truncates", "mode-hamming", "mode-callable", "long-sequences>=127"]}
+REQUIRED_CLASSES = {"all": ["n_cpu>len", "n_cpu==len", "chunksize-does-not-divide", "virtual-schedule", "compression>1", "max_returns-truncates", "mode-hamming", "mode-callable", "long-sequences>=127", "all-sequences-of-one-length"]}
 MIN_OUTCOMES = 10
 
 MODES = ("default", "hamming", "callable")
@@ -62,6 +62,10 @@ def spaces(tier):
                     yield ("real", n, ncpu, mode, 1 if n < 9 else 2)
 
     def gen_comp():
+        for alpha, L in (("ACD", 4), ("AC", 5)):
+            for comp in (1, 2, 7):
+                for k in (1, 2, 3):
+                    yield ("eqlen", alpha, L, comp, k)
         for alpha in ("ACD", "DEF", "WYA"):
             for comp in range(1, 26):
                 for k in (1, 2, 3):
@@ -154,6 +158,19 @@ def check_case(case, acc):
                 _report(acc, "kdtree/%s/compression/%s" % (mode, bad[0]), rcase, exp, res, note=str(bad))
             else:
                 acc.ok((alpha, comp, k, mode, len(res)), nontrivial=bool(exp))
+    elif kind == "eqlen":
+        _, alpha, L, comp, k = case
+        seqs = ["".join(t) for t in itertools.product(alpha, repeat=L)]
+        acc.cls("all-sequences-of-one-length")
+        for mode in MODES:
+            for ncpu in (1, 2) if comp == 1 and k == 2 else (1,):
+                exp = expected(seqs, k, mode)
+                res = _kd(acc, seqs, k, mode, compression=comp, n_cpu=ncpu)
+                bad = diagnose(res, exp)
+                if bad is not None:
+                    _report(acc, "kdtree/%s/equal-length-collection/%s" % (mode, bad[0]), case, exp, res, note=str(bad))
+                    return
+                acc.ok((alpha, L, comp, k, mode, len(res)), nontrivial=bool(exp))
     elif kind == "comp1":
         _, seqs, comp, k, mode = case
         exp = expected(seqs, k, mode)
